@@ -33,7 +33,7 @@ func (p *propC11) ID() string     { return "C11" }
 func (p *propC11) Engine() string { return "rx" }
 func (p *propC11) Level() string  { return "fault_enumeration" }
 func (p *propC11) Rule() string {
-	return "enumeration: for every stream of the pool (single frames and chains of 2-3 frames) x every entry point x fault kind (cut.eof, cut.eof+data, fail.sticky, fail.with_data) x read policy (full, short k7, one) x every byte offset k in [0,len] (quick: every offset of frames <= 8 KiB; thorough: frames up to 60 KB, every offset of frames <= 32 KiB, structural + 4096-multiples + 2000 seeded offsets above); " +
+	return "enumeration: for every stream of the pool (single frames and chains of 2-3 frames) x every entry point x fault kind (cut.eof, cut.eof+data, fail.sticky, fail.with_data) x read policy (full, short k7, one, zk5 = a (0,nil) stutter before every 5-byte read) x every byte offset k in [0,len] (quick: every offset of frames <= 8 KiB; thorough: frames up to 60 KB, every offset of frames <= 32 KiB, structural + 4096-multiples + 2000 seeded offsets above); " +
 		"key = (entry point, fault kind, structural class of k, policy); non-trivial when the reader actually reached k"
 }
 func (p *propC11) Assumptions() []string {
@@ -50,7 +50,7 @@ func (p *propC11) ProbeNames() []string {
 
 var c11Calls = []string{"Decode", "DecodeChained", "CheckIntegrity", "CheckIntegrityHeader", "DecodeHeader", "DecodeHeaderAndFileID"}
 var c11Kinds = []string{"cut.eof", "cut.eof_with_data", "fail.sticky", "fail.with_data"}
-var c11Plans = []ReadPlan{{Tail: "full"}, {Tail: "k7"}, {Tail: "one"}}
+var c11Plans = []ReadPlan{{Tail: "full"}, {Tail: "k7"}, {Tail: "one"}, {Tail: "zk5"}}
 
 func (p *propC11) Prepare(seed uint64, tier string) int {
 	p.seed, p.tier = seed, tier
